@@ -11,6 +11,7 @@ package main
 import (
 	"go/token"
 	"go/types"
+	"strings"
 
 	"golang.org/x/tools/go/ssa"
 )
@@ -88,4 +89,47 @@ func (c *Ctx) checkNoRegisterOnlyErrors(r *Report, rule string) {
 		r.Ok(rule, "eval", "no error is created in a register-only arm", "")
 	}
 	r.Note("%s: %d register-only arms examined", rule, arms)
+}
+
+// checkRegisterArmBindsNothing: rule C05.R14.
+//
+// Once a name has a register, the body reads the register: in evalAssignment's REGISTER arm (the left side is
+// the *Register node) the value goes into the register and nowhere else. A binding call there (`:=` "creating
+// the variable too") writes a shadow variable that nothing reads, and the register keeps the old value:
+// func f(n){ n := n + 1; n } is 1 with registers and 2 without.
+func (c *Ctx) checkRegisterArmBindsNothing(r *Report, rule string) {
+	fn := c.SSAFn(c.Fn("eval", "State.evalAssignment"))
+	regK, _ := constInt64(c.Const("token", "REGISTER"))
+	binders := []*types.Func{c.Fn("object", "Environment.CreateOrSet"), c.Fn("object", "Environment.Set"), c.Fn("object", "Environment.SetNoChecks")}
+	inArm := func(b *ssa.BasicBlock) bool {
+		for _, cc := range controlling(b) {
+			bin, ok := cc.Cond.(*ssa.BinOp)
+			if !ok || bin.Op != token.EQL || cc.Edge != 0 {
+				continue
+			}
+			if k, ok := constInt(bin.Y); ok && k == regK {
+				return true
+			}
+		}
+		return false
+	}
+	arm := 0
+	var bad []string
+	for _, b := range fn.Blocks {
+		if !inArm(b) {
+			continue
+		}
+		arm++
+		for _, in := range b.Instrs {
+			if isCallTo(in, binders...) {
+				bad = append(bad, c.Pos(in.Pos()))
+			}
+		}
+	}
+	if arm == 0 {
+		r.Undecided("%s: the REGISTER arm of evalAssignment was not found", rule)
+		return
+	}
+	r.Check(len(bad) == 0, rule, ssaFuncName(fn), "the REGISTER arm of an assignment binds no variable", c.Pos(fn.Pos()),
+		"an assignment whose left side is a register also makes a binding call ("+strings.Join(bad, ", ")+"): the body was rewritten to read the register, so the new variable is never read and the register keeps its old value (func f(n){ n := n + 1; n }; f(1) is 1 with registers, 2 without)")
 }
